@@ -149,6 +149,14 @@ fn check_step(prop: &str, a: &Arena, arena_id: usize, pre: Option<(&Schedule, &R
 }
 
 pub fn explore(prop: &str, a: &Arena, arena_id: usize, b: &Bounds, stats: &mut Stats, found: &mut Vec<Found>) {
+    // a panic of the subject while computing an initial state: arithmetic slips belong to C09, any panic of a call inside the domain to C13
+    for (what, site, msg) in &a.init_failures {
+        let arithmetic = msg.contains("subtract") || msg.contains("overflow") || msg.contains("Cannot subtract");
+        if prop == "C13" || (prop == "C09" && arithmetic) {
+            let short: String = msg.chars().take(80).collect();
+            found.push(Found { arena: arena_id, init: "empty", history: vec![], clause: format!("panic:initial-state:{}:{}", site_without_line(site), short), detail: format!("{} panicked at {}: {}", what, site, short) });
+        }
+    }
     let seen = Seen::new();
     let mut frontier: Vec<Item> = vec![];
     for (name, s) in initial_states(a) {
@@ -302,12 +310,19 @@ pub fn replay_history(prop: &str, r: &Value, verbose: bool) -> Result<Vec<(Strin
     let name = r.get("arena").and_then(|x| x.as_str()).unwrap_or("replay").to_string();
     let input = r.get("input").cloned().ok_or("no input")?;
     let a = Arena::from_input(&name, &code, input);
+    if r.get("failing_clause").and_then(|x| x.as_str()).map(|c| c.starts_with("panic:initial-state:")).unwrap_or(false) {
+        return Ok(a.init_failures.iter().map(|(what, site, msg)| {
+            let short: String = msg.chars().take(80).collect();
+            (format!("panic:initial-state:{}:{}", site_without_line(site), short), format!("{} panicked at {}: {}", what, site, short))
+        }).collect());
+    }
     let init = r.get("initial_state").and_then(|x| x.as_str()).unwrap_or("empty");
     let mut s = initial_states(&a).into_iter().find(|(n, _)| *n == init).ok_or("unknown initial state")?.1;
     let ops: Vec<Op> = r.get("operations").and_then(|x| x.as_array()).ok_or("no operations")?.iter().map(|j| Op::from_json(&a, j)).collect::<Result<_, _>>()?;
-    let mut last: Vec<(String, String)> = vec![];
     let mut st = Stats::default();
     crate::pool::install_panic_recorder_thread();
+    // a violation may already be present in the initial state (empty history)
+    let mut last: Vec<(String, String)> = check_step(prop, &a, usize::MAX - 1, None, None, &s, &Ret::None, &mut st);
     for (i, op) in ops.iter().enumerate() {
         let pre_ref = extract(&a, &s);
         match apply(&a, &s, op) {
@@ -457,7 +472,7 @@ pub fn check(prop: &str, tier: &str) -> i32 {
     report.cov("exhaustive", json!(true));
     report.cov("runs_compared", json!(if tier == "thorough" { "first plan explored twice, identical state and transition counts required" } else { "single run" }));
     let sample_arena = &arenas[0];
-    let sample_ops: Vec<Value> = enumerate(sample_arena, &initial_states(sample_arena)[1].1, &b.menu).iter().take(6).map(|o| o.to_json(sample_arena)).collect();
+    let sample_ops: Vec<Value> = enumerate(sample_arena, &initial_states(sample_arena).last().unwrap().1, &b.menu).iter().take(6).map(|o| o.to_json(sample_arena)).collect();
     report.cov("samples", json!([{"arena": sample_arena.name, "initial_state": "min_cost_flow", "first_operations_of_the_menu": sample_ops}]));
     report.assume("valid-argument domain as tabulated in DESIGN.md (C13); arguments outside it are not generated");
     report.assume("exploration is bounded: depth, arenas, vehicle and dummy caps as stated; nothing is claimed beyond them");
